@@ -87,6 +87,8 @@ type chanRef struct {
 type iterCmd struct {
 	Op  string `json:"op"` // seek-first seek-last seek-ge seek-le next prev next-auto prev-auto valid
 	Arg int64  `json:"arg,omitempty"`
+	// set-bounds: the new range is [Arg, Arg2)
+	Arg2 int64 `json:"arg2,omitempty"`
 }
 
 type iterSpec struct {
@@ -400,6 +402,16 @@ func genIter(r *prng.R, cs caseSpec, after int) iterSpec {
 	it.Cmds = append(it.Cmds, iterCmd{Op: prng.Pick(r, seeks), Arg: pickT()})
 	for i := 0; i < r.Range(5, 18); i++ {
 		switch x := r.Intn(100); {
+		case x < 5:
+			// new bounds on the open iterator, then a seek (as after opening)
+			a, b := pickT(), pickT()
+			if a > b {
+				a, b = b, a
+			}
+			if r.Chance(1, 4) {
+				a, b = int64(telem.TimeStampMin), int64(telem.TimeStampMax)-1
+			}
+			it.Cmds = append(it.Cmds, iterCmd{Op: "set-bounds", Arg: a, Arg2: b + 1}, iterCmd{Op: prng.Pick(r, seeks), Arg: pickT()})
 		case x < 12:
 			it.Cmds = append(it.Cmds, iterCmd{Op: prng.Pick(r, seeks), Arg: pickT()})
 		case x < 40:
